@@ -124,7 +124,7 @@ impl C08 {
 }
 
 fn v(clause: &str, detail: String) -> Vec<StepViolation> {
-    vec![StepViolation { clause: clause.to_string(), detail, shape: None }]
+    vec![StepViolation { clause: clause.to_string(), detail, shape: None, soft: false }]
 }
 
 fn side_key(s: &Side) -> String {
